@@ -705,3 +705,99 @@ Section Reply.
     apply (sort_in key) in Hy. rewrite <- (firstn_skipn (N.to_nat cap)) in Hy. apply in_app_iff in Hy. tauto.
   Qed.
 End Reply.
+
+(* ------------------------------------------------------------------ *)
+(* statements about every table reachable from the empty one            *)
+Lemma reach_inv : forall local ops, key_ok local -> Forall op_ok ops -> Inv (fst (run (start local) ops)).
+Proof. intros. apply inv_run; [apply inv_empty; assumption|assumption]. Qed.
+
+Lemma reach_table : forall local ops, key_ok local -> Forall op_ok ops ->
+  let t := fst (run (start local) ops) in
+  t_local t = local /\
+  NoDup (ids (all_nodes t)) /\
+  ~ In local (ids (all_nodes t)) /\
+  (forall i x, In x (t_buckets t i) -> In x (all_nodes t) /\ bucket_index local (n_id x) = i /\ key_ok (n_id x)) /\
+  (forall i, N.of_nat (length (t_buckets t i)) <= RT_BUCKET_K).
+Proof.
+  intros local ops Kl F. cbn zeta. pose proof (reach_inv local ops Kl F) as I.
+  destruct (run_cap ops (start local)) as [Ec El]. cbn [start empty_table t_cap t_local] in Ec, El.
+  split; [exact El|]. split; [apply inv_all_nodup; exact I|]. split; [rewrite <- El at 1; apply inv_local_absent; exact I|].
+  pose proof I as [_ [Hp [_ Hc]]]. split.
+  - intros i x Ix. split; [apply (in_all_nodes _ x I); exists i; exact Ix|].
+    destruct (Hp i x Ix) as [K [_ B]]. rewrite El in B. tauto.
+  - intros i. rewrite <- Ec. apply Hc.
+Qed.
+
+Lemma closest_meaning : forall t key count, Inv t -> key_ok key ->
+  let res := closest t key count in
+  N.of_nat (length res) = N.min count (size t) /\
+  StronglySorted (dlt key) res /\
+  NoDup (ids res) /\
+  ~ In (t_local t) (ids res) /\
+  (forall x, In x res -> In x (all_nodes t)) /\
+  (forall x y, In x res -> In y (all_nodes t) -> ~ In y res -> dlt key x y).
+Proof.
+  intros t key count I K. cbn zeta. rewrite (closest_exact t key count I K).
+  split; [apply spec_length|]. split; [apply spec_sorted; exact I|]. split; [apply spec_nodup; exact I|].
+  split.
+  - intro H. apply in_ids_inv in H. destruct H as [x [Ix Ex]]. apply spec_sub in Ix.
+    apply (inv_local_absent t I). rewrite <- Ex. apply in_ids. exact Ix.
+  - split; [intros x; apply spec_sub|]. intros x y. apply spec_complete. exact I.
+Qed.
+
+Lemma closest_unique : forall t key count res, Inv t -> key_ok key ->
+  StronglySorted (dlt key) res ->
+  (forall x, In x res -> In x (all_nodes t)) ->
+  N.of_nat (length res) = N.min count (size t) ->
+  (forall x y, In x res -> In y (all_nodes t) -> ~ In y res -> dlt key x y) ->
+  res = closest t key count.
+Proof. intros. rewrite closest_exact by assumption. apply spec_characterised; assumption. Qed.
+
+Lemma requests_exact : forall t key count, Inv t -> key_ok key ->
+  handle_find_node t key count = closest_spec t key (N.min count RT_MAX_FIND_NODE_COUNT) /\
+  handle_find_value t key = closest_spec t key RT_FIND_VALUE_COUNT.
+Proof. intros. unfold handle_find_node, handle_find_value. split; apply closest_exact; assumption. Qed.
+
+Lemma requests_capped : forall t key count,
+  N.of_nat (length (handle_find_node t key count)) <= 20 /\
+  N.of_nat (length (handle_find_value t key)) <= 8.
+Proof.
+  intros. pose proof (find_node_capped t key count). pose proof (find_value_capped t key).
+  unfold RT_MAX_FIND_NODE_COUNT, RT_FIND_VALUE_COUNT in *. lia.
+Qed.
+
+Lemma reply_rule : forall is_self requester key cap connected from_table,
+  let known := dedupe_ids (connected ++ from_table) in
+  let elig := filter (eligible is_self requester) known in
+  let res := reply_nodes is_self requester key cap connected from_table in
+  (* one entry per DHT key, the first (connected, dialable) one *)
+  NoDup (ids known) /\
+  (forall x, In x (connected ++ from_table) -> exists y, In y known /\ n_id y = n_id x) /\
+  (forall x, In x connected -> NoDup (ids connected) -> In x known) /\
+  (* the answer: the nearest [cap] of the eligible entries *)
+  res = firstn (N.to_nat cap) (sort_by_dist key elig) /\
+  N.of_nat (length res) = N.min cap (N.of_nat (length elig)) /\
+  N.of_nat (length res) <= cap /\
+  StronglySorted (dlt key) res /\
+  NoDup (ids res) /\
+  (forall x, In x res -> In x (connected ++ from_table) /\ is_self x = false /\ n_id x <> requester) /\
+  (forall x y, In x res -> In y elig -> ~ In y res -> dlt key x y).
+Proof.
+  intros is_self requester key cap connected from_table. cbn zeta.
+  split; [apply dedupe_ids_nodup|]. split; [apply dedupe_ids_first|].
+  split; [intros x Ix ND; apply dedupe_ids_head; assumption|].
+  split; [apply reply_eq|]. split; [apply reply_length|].
+  split; [pose proof (reply_length is_self requester key cap connected from_table) as L; cbn zeta in L; lia|]. split; [apply reply_sorted|]. split; [apply reply_nodup|].
+  split; [apply reply_members|apply reply_complete].
+Qed.
+
+Lemma nodup_N_spec : forall l, nodup_N l = true <-> NoDup l.
+Proof.
+  induction l as [|a l IH]; cbn [nodup_N]; [split; [constructor|reflexivity]|].
+  rewrite andb_true_iff, negb_true_iff, IH. split.
+  - intros [H1 H2]. constructor; [|exact H2]. intro I.
+    assert (existsb (N.eqb a) l = true) by (apply existsb_exists; exists a; split; [exact I|apply N.eqb_refl]). congruence.
+  - intros H. inversion H; subst. split; [|assumption].
+    destruct (existsb (N.eqb a) l) eqn:E; [|reflexivity]. apply existsb_exists in E. destruct E as [b [Ib Eb]].
+    apply N.eqb_eq in Eb. subst. contradiction.
+Qed.
